@@ -127,6 +127,13 @@ def _replay_err(b):
                             {"got": v, "specified": want[name], "iterated_side": st["side"], "matching": st["match"]}))
         if "rmse" in got and "mse" in got and got["mse"] >= 0 and not numeric.close(got["rmse"], math.sqrt(got["mse"]), rel=1e-12):
             bad.append(("rmse-is-sqrt-mse", {"strategy": s, "rmse": got["rmse"], "mse": got["mse"]}))
+    # the same identity through the DEFAULT strategy (whatever it is): a call without the optional argument is a valid call
+    try:
+        r0, m0 = float(ev.rmse(P, K, E)), float(ev.mse(P, K, E))
+        if m0 >= 0 and not numeric.close(r0, math.sqrt(m0), rel=1e-12):
+            bad.append(("rmse-is-sqrt-mse", {"strategy": "<default>", "rmse": r0, "mse": m0}))
+    except Exception as ex:
+        bad.append(("returns", {"fn": "rmse/mse", "strategy": "<default>", "raised": repr(ex)[:200]}))
     return bad, []
 
 
